@@ -652,6 +652,16 @@ def c05_gpg(ctx, r, quick):
                             if rcode != want:
                                 ctx.violation('spec', f'verify {flags} on a {"signed" if signed_tree else "unsigned"} tree exited {rcode}, expected {want}',
                                               {'flags': flags, 'signed_tree': signed_tree})
+                    # several paths in one command: the signature requirement (and every other verdict) holds for each of them, wherever it stands
+                    for flags in (['-s'], ['-k', '-s'], []):
+                        for trees in ([tree, utree], [utree, tree], [tree, tree], [utree, tree, tree], [tree, utree, tree]):
+                            rcode = run_cli(['gemato', 'verify'] + flags + trees)
+                            n += 1
+                            want = 1 if ('-s' in flags and utree in trees) else 0
+                            if rcode != want:
+                                names = ['signed' if x == tree else 'unsigned' for x in trees]
+                                ctx.violation('spec', f'gemato verify {" ".join(flags)} {" ".join(names)} exited {rcode}, expected {want}',
+                                              {'flags': flags, 'trees': names, 'exit': rcode})
                     # gemato openpgp-verify over several files: status 1 iff one of them is rejected, wherever it stands
                     good = os.path.join(td, 'good.asc')
                     bad = os.path.join(td, 'bad.asc')
